@@ -2,7 +2,7 @@
    (cache-store part: both backends, every interleaving at lock granularity plus
    the lock-free reads of open handles between the chunks of a running store).
    Statements only; every proof is [exact <lemma of Proofs/Store.v>]. *)
-From Reservoir Require Import Base.Prelude Base.Amap Model.Store Proofs.Store.
+From Reservoir Require Import Base.Prelude Base.Amap Model.Store Proofs.Store Model.FetchOrder Proofs.FetchOrder.
 
 (* Handle integrity.  Take ANY history [pre]; let action [a] hand out a handle
    [h] (a Get, or the completion of a store) announcing size [sz] and origin
@@ -127,3 +127,22 @@ Example ex_no_resurrection :
   let s := run File 1000 (ex_pre ++ [ADelete 0; ABegin 0 10 2 []; AWrite 0 [1]; AAbort 0]) in
   (current File s 0, snd (step File 1000 s (AGet 0))) = (None, RMiss).
 Proof. vm_compute. reflexivity. Qed.
+
+(* The order in which origin answers are stored (Model/FetchOrder.v).  When the fetches of a resource are
+   serialised -- what singleflight does for coalesced GETs -- no request ever receives an older version
+   than an earlier request did, for every history of content changes, fetches, stores and hits
+   (the clause "a request that starts after an entry was replaced never receives the replaced body"
+   at the level of the proxy).  PARTIAL: the hypothesis excludes independent fetches of one key ... *)
+Theorem C01_no_resurrection_serialized_partial : forall l s',
+  frun true f_init l = Some s' -> monotone_log (f_served s') = true.
+Proof. exact serialized_fetches_monotone. Qed.
+Print Assumptions C01_no_resurrection_serialized_partial.
+
+(* ... and without it the clause is FALSE of the code: Range requests (and the retry paths) fetch and store
+   on their own, so an older answer that is stored last replaces a newer one.  This witness, replayed on
+   the implementation by harness/cmd/e2e01 (forced history "late store"), is the retained finding
+   C01-late-store-of-older-answer. *)
+Theorem C01_no_resurrection_refuted : exists l s',
+  frun false f_init l = Some s' /\ monotone_log (f_served s') = false.
+Proof. exact unserialized_fetches_refuted. Qed.
+Print Assumptions C01_no_resurrection_refuted.
